@@ -4,8 +4,8 @@ func init() {
 	register(&Prop{
 		ID: "C06", Title: "TypedValue/TypedStore are transparent, error-faithful typed views", Level: "fault_enumeration",
 		Subs: []Sub{
-			{Pkg: "typed", Harness: "valueseq", Weight: 3},
-			{Pkg: "typed", Harness: "storeseq", Weight: 2},
+			{Pkg: "typed", Harness: "valueseq", Weight: 3, Native: true},
+			{Pkg: "typed", Harness: "storeseq", Weight: 2, Native: true},
 			{Pkg: "typed", Harness: "valueconc", Weight: 2},
 			{Pkg: "typed", Harness: "valueconc", Config: "faults", Weight: 1},
 		},
